@@ -34,7 +34,7 @@ pub struct Call {
 /// JSON text that does not parse and is not mistaken for JSONB by `is_jsonb` either.
 pub const BAD_TEXTS: &[&[u8]] = &[b"[1,", b"{\"a\":", b"[nul", b"tru", b"\"abc", b"[1 2]", b"{\"a\" 1}", b"-", b"1e", b"[1,2,3]]", b"{\"a\":1,}", b"\xff\xfe"];
 
-const BAD_ITEMS: &[&[u8]] = &[b"null", b"true", b"false", b"\x00\x00\x00\x00", b"\xa0\x00\x00\x01", b"\xc0\x00\x00\x00", b"\xe0\x00\x00\x00rest", b"", b"\x20", b"\x80\x00"];
+pub const BAD_ITEMS: &[&[u8]] = &[b"null", b"true", b"false", b"\x00\x00\x00\x00", b"\xa0\x00\x00\x01", b"\xc0\x00\x00\x00", b"\xe0\x00\x00\x00rest", b"", b"\x20", b"\x80\x00"];
 
 /// The operation actually executed: with the bad item spliced in as pseudo-register `nregs`.
 fn effective_op(call: &Call, nregs: usize) -> Op {
